@@ -876,6 +876,9 @@ def run(ctx):
     sets.append(("random", "seeded random sequences of 2..12 operations on a pool of 3 objects (all operations incl. constructor overloads, copies between slots, "
                  "component-count-only resizes, same-size other-split resizes, repeated augmentation, concatenation chains, element writes with special values)",
                  [gen_random(g, 12) for _ in range(nrand)], False))
+    if ctx.replay:
+        import json
+        sets = [("replay", "the input recorded in %s" % ctx.replay, [parse_line(json.load(open(ctx.replay))["replay"]["input_line"])], False)]
     all_cases = [c for s in sets for c in s[2]]
     workers = max(1, min(8, vlib.NPROC // 2))
     aggs = run_cases(all_cases, binary, workers)
@@ -911,7 +914,7 @@ def run(ctx):
     ctx.coverage.update({
         "evaluations": len(all_cases), "distinct_nontrivial": distinct,
         "rule": "; ".join("[%s: %d cases] %s" % (n, len(c), r) for n, r, c, e in sets),
-        "samples": [case_line(sets[2][2][len(sets[2][2]) // 3])[:400], case_line(sets[-1][2][0])[:600]],
+        "samples": [case_line(max(sets, key=lambda x: len(x[2]))[2][len(max(sets, key=lambda x: len(x[2]))[2]) // 3])[:400], case_line(sets[-1][2][0])[:600]],
         "exhaustive": {n: {"complete": True, "cases": len(c)} for n, r, c, e in sets if e},
         "set_sizes": {n: len(c) for n, r, c, e in sets},
         "traces_validated_against_impl": len(all_cases),
